@@ -9,7 +9,7 @@
 //! opts: - (no options) | n (options, ignore unset) | t | f
 //! rk:   p (plain) or the argument container kind (one letter); vals: the argument values
 //! generic: - (None) | @ (Some(&[])) | rows joined by `/`; row := `.` (empty) | entry (';' entry)*
-//!          entry := <id>~<type menu index or ->~<const or ->   const := <kind letter><value>
+//!          entry := <id>~<type or ->~<const or ->   type := <menu index>:<raw type name>   const := <kind letter><value>
 
 #[derive(Clone, Debug)]
 pub struct Cfg {
@@ -43,6 +43,8 @@ pub struct Args {
 pub struct Gen {
     pub id: usize,
     pub ty: Option<usize>,
+    /// The raw `type_name` the case expects for `ty` (checked by the harness).
+    pub ty_name: Option<String>,
     pub konst: Option<(u8, String)>,
 }
 
@@ -178,7 +180,12 @@ pub fn parse(line: &str) -> Spec {
                                             let p: Vec<&str> = e.split('~').collect();
                                             Gen {
                                                 id: p[0].parse().expect("gid"),
-                                                ty: if p[1] == "-" { None } else { Some(p[1].parse().expect("ty")) },
+                                                ty: if p[1] == "-" {
+                                                    None
+                                                } else {
+                                                    Some(p[1].split(':').next().unwrap().parse().expect("ty"))
+                                                },
+                                                ty_name: p[1].split_once(':').map(|(_, n)| dec(n)),
                                                 konst: if p[2] == "-" {
                                                     None
                                                 } else {
